@@ -572,7 +572,7 @@ func (g *Gen) clockProgram(n int) {
 		case 3:
 			if g.w.kind == "disk" {
 				h := pick(g.r, []uint64{0, 0, 12345, g.phys})
-				g.emit(Line{Op: "restart", Args: [][2]string{{"hlc", u(h)}}})
+				g.emit(Line{Op: "restart", Args: [][2]string{{"hlc", u(h)}, {"mode", pick(g.r, []string{"reopen", "open"})}}})
 				g.stats["op:restart"]++
 			}
 		}
@@ -671,7 +671,7 @@ func (g *Gen) expiryProgram(n int) {
 			observe()
 		}
 		if g.w.kind == "disk" && g.r.chance(6) {
-			g.emit(Line{Op: "restart", Args: [][2]string{{"hlc", "0"}}})
+			g.emit(Line{Op: "restart", Args: [][2]string{{"hlc", "0"}, {"mode", pick(g.r, []string{"reopen", "open"})}}})
 			g.stats["op:restart"]++
 			feeds = nil
 			observe()
@@ -928,7 +928,7 @@ func (g *Gen) viewProgram(n int, withMeta bool) {
 			g.stats[fmt.Sprintf("cell:view/m%d/%s/rows%s", v.mapID, cls, nrows)]++
 		}
 		if g.w.kind == "disk" && g.r.chance(3) {
-			g.emit(Line{Op: "restart", Args: [][2]string{{"hlc", "0"}}})
+			g.emit(Line{Op: "restart", Args: [][2]string{{"hlc", "0"}, {"mode", pick(g.r, []string{"reopen", "open"})}}})
 			g.stats["op:restart"]++
 		}
 	}
